@@ -129,6 +129,47 @@ vi_op(int argc, char **argv)
         bool sound = rcs[0] == e || (rcs[0] == rcs[1] && us[0] == us[1] && (rcs[0] < 0 || taken[0] == taken[1]));
         printf(" ## %s", sound ? "sound" : "a-value-across-the-gap");
         free(mem);
+    } else if (strcmp(op, "vi.decchunks") == 0 && argc == 4) {
+        /* the octets come from a chunk list (source_from_chunks) cut at the given positions; a position given twice is
+         * an empty chunk.  How the octets are scattered is invisible to the decoder; behind the value the next octet
+         * of the source is asked for as well */
+        size_t n;
+        unsigned char *mem = parse_hex(argv[2], &n);
+        if (!mem) { printf("bad-op"); return; }
+        size_t cuts[16]; size_t nc = 0;
+        if (strcmp(argv[3], "-") != 0) {
+            char *save = NULL;
+            for (char *t = strtok_r(argv[3], ",", &save); t && nc < 15; t = strtok_r(NULL, ",", &save)) cuts[nc++] = parse_u64(t);
+        }
+        ByteBuffer cb[17]; unsigned char *blk[17];
+        size_t from = 0;
+        for (size_t k = 0; k <= nc; k++) {
+            size_t to = k < nc ? cuts[k] : n;
+            if (to < from || to > n) { printf("bad-op"); free(mem); for (size_t q = 0; q < k; q++) free(blk[q]); return; }
+            blk[k] = malloc(to - from ? to - from : 1);                    /* exact size */
+            memcpy(blk[k], mem + from, to - from);
+            byte_buffer_use(&cb[k], blk[k], to - from);
+            if (to == from) { cb[k].data = blk[k]; cb[k].size = 0; cb[k].used = 0; cb[k].offset = 0; }
+            from = to;
+        }
+        ByteChunks bc = { .chunk = cb, .chunks = nc + 1, .active = 0 };
+        Source src;
+        source_from_chunks(&src, &bc);
+        uint64_t u = 0; uint32_t u32v = 0; int32_t s32v = 0; int64_t s64v = 0;
+        int rc;
+        if (is32 && sgn) { rc = varint_s32_from_source(&src, &s32v); u = (uint32_t)s32v; }
+        else if (is32) { rc = varint_u32_from_source(&src, &u32v); u = u32v; }
+        else if (sgn) { rc = varint_s64_from_source(&src, &s64v); u = (uint64_t)s64v; }
+        else rc = varint_u64_from_source(&src, &u);
+        print_dec_result(rc, ty, u);
+        if (rc >= 0) {
+            unsigned char nx = 0;
+            int r2 = source_get_octet(&src, &nx);
+            printf(" taken=%d", rc);
+            if (r2 > 0) printf(" next=%02x", nx); else printf(" next=none");
+        }
+        for (size_t k = 0; k <= nc; k++) free(blk[k]);
+        free(mem);
     } else if (strcmp(op, "vi.tosink") == 0 && argc == 3) {
         struct csnk drv = { .n = 0 };
         Sink snk = CHUNK_SINK_INIT(csnk_put, &drv);
@@ -344,6 +385,32 @@ page_block(size_t size)
     return p;
 }
 
+/* store / load / store / load / store / load in ONE function, calls written out (no table, no wrapper): the optimiser sees
+ * all six calls together - a reader it may assume not to look at memory would be merged with the one before */
+struct bf_rsr_entry { const char *name; int rw; void (*call)(unsigned char *, uint64_t, uint64_t, uint64_t *); };
+#define RSR_US(k, bits, T, W) RSR_1(k, bits, T, W, n) RSR_1(k, bits, T, W, b) RSR_1(k, bits, T, W, l)
+#define RSR_1(k, bits, T, W, o) \
+    static void rsr_##k##bits##o(unsigned char *p, uint64_t v1, uint64_t v2, uint64_t *out) { \
+        bf_set_##k##bits##o(p, (T)v1); out[0] = (uint64_t)(uint##W##_t)bf_ref_##k##bits##o(p); \
+        bf_set_##k##bits##o(p, (T)v2); out[1] = (uint64_t)(uint##W##_t)bf_ref_##k##bits##o(p); \
+        bf_set_##k##bits##o(p, (T)v1); out[2] = (uint64_t)(uint##W##_t)bf_ref_##k##bits##o(p); }
+#define RSR_F(bits, T, U, o) \
+    static void rsr_f##bits##o(unsigned char *p, uint64_t v1, uint64_t v2, uint64_t *out) { \
+        U u; T f; \
+        u = (U)v1; memcpy(&f, &u, sizeof f); bf_set_f##bits##o(p, f); f = bf_ref_f##bits##o(p); memcpy(&u, &f, sizeof u); out[0] = u; \
+        u = (U)v2; memcpy(&f, &u, sizeof f); bf_set_f##bits##o(p, f); f = bf_ref_f##bits##o(p); memcpy(&u, &f, sizeof u); out[1] = u; \
+        u = (U)v1; memcpy(&f, &u, sizeof f); bf_set_f##bits##o(p, f); f = bf_ref_f##bits##o(p); memcpy(&u, &f, sizeof u); out[2] = u; }
+BF_WIDTHS_US(RSR_US, u, uint16_t, uint32_t, uint64_t)
+BF_WIDTHS_US(RSR_US, s, int16_t, int32_t, int64_t)
+RSR_F(32, float, uint32_t, n) RSR_F(32, float, uint32_t, b) RSR_F(32, float, uint32_t, l)
+RSR_F(64, double, uint64_t, n) RSR_F(64, double, uint64_t, b) RSR_F(64, double, uint64_t, l)
+#define RSR_ROW(k, bits, T, W) \
+    { "bf_ref_" #k #bits "n", W, rsr_##k##bits##n }, { "bf_ref_" #k #bits "b", W, rsr_##k##bits##b }, { "bf_ref_" #k #bits "l", W, rsr_##k##bits##l },
+static const struct bf_rsr_entry bf_rsrs[] = {
+    BF_WIDTHS_US(RSR_ROW, u, 0, 0, 0) BF_WIDTHS_US(RSR_ROW, s, 0, 0, 0)
+    RSR_ROW(f, 32, 0, 32) RSR_ROW(f, 64, 0, 64)
+};
+
 static void
 bf_op(int argc, char **argv)
 {
@@ -380,6 +447,23 @@ bf_op(int argc, char **argv)
                 int len = snprintf(out, sizeof out, "ret=%td out=", ret - (blk + align));
                 for (size_t k = 0; k < n; k++) len += snprintf(out + len, sizeof out - len, "%02x", blk[align + k]);
                 snprintf(out + len, sizeof out - len, " pre=%s", pre ? "ok" : "bad");
+                printf("%s ## %s", out, out);
+                free(blk);
+                return;
+            }
+        }
+        printf("bad-op");
+    } else if (strcmp(op, "bf.rsr") == 0 && argc == 5) {
+        uint64_t v1 = strtoull(argv[2], NULL, 16), v2 = strtoull(argv[3], NULL, 16);
+        size_t align = parse_u64(argv[4]);
+        for (size_t i = 0; i < sizeof bf_rsrs / sizeof *bf_rsrs; i++) {
+            if (strcmp(bf_rsrs[i].name, argv[1]) == 0) {
+                unsigned char *blk = page_block(align + 8);
+                memset(blk, 0xee, align + 8);
+                uint64_t o[3] = { 0, 0, 0 };
+                bf_rsrs[i].call(blk + align, v1, v2, o);
+                int w = bf_rsrs[i].rw / 4;
+                snprintf(out, sizeof out, "%0*" PRIx64 " %0*" PRIx64 " %0*" PRIx64, w, o[0], w, o[1], w, o[2]);
                 printf("%s ## %s", out, out);
                 free(blk);
                 return;
